@@ -1,6 +1,7 @@
 package checks
 
 import (
+	"encoding/binary"
 	"fmt"
 	"strings"
 	"time"
@@ -243,6 +244,9 @@ func (ch c05) Run(c *core.Ctx) {
 	defer env.Stop()
 	if c.Batch == 0 {
 		c.Count("exhaustive_parts", 1)
+	}
+	if c.Begin(90000000) {
+		ch.nulTexts(c, env)
 	}
 	var cl *hs.Client
 	var sess *hs.Sess
@@ -634,3 +638,54 @@ func c05wide(n int) []any {
 
 var c05wellKnown = []string{"DISCARD ALL", "discard all;", "RESET ALL", "DEALLOCATE ALL", "BEGIN", "COMMIT", "ROLLBACK", "SELECT 1", "select version()", "SET client_encoding TO 'UTF8'", "SET extra_float_digits = 3",
 	"SHOW transaction_read_only", "SHOW server_version", "UNLISTEN *", "CLOSE ALL", "SELECT pg_backend_pid()", "SET application_name = 'x'", "START TRANSACTION ISOLATION LEVEL SERIALIZABLE", "-- ping", "/* ping */ SELECT 1"}
+
+// nulTexts: a handler that hands the library strings with a NUL byte in them (an error text echoing raw
+// bytes, a command tag built from them) is outside what a C-string can carry, and what the fields of such
+// a message then contain is not judged. The cycle is: the statement's messages, then exactly one
+// ReadyForQuery, and the connection serves its next query.
+func (ch c05) nulTexts(c *core.Ctx, env *hs.Env) {
+	frames := func(out []byte) string {
+		var b []byte
+		for off := 0; off+5 <= len(out); {
+			l := int(binary.BigEndian.Uint32(out[off+1:]))
+			if l < 4 || off+1+l > len(out) {
+				return string(b) + "?"
+			}
+			b = append(b, out[off])
+			off += 1 + l
+		}
+		return string(b)
+	}
+	row := hs.Op{K: "row", Vals: []any{"v"}}
+	cases := []struct {
+		name string
+		ops  []hs.Op
+		want string
+	}{
+		{"error text", []hs.Op{row, {K: "err", Err: &hs.ErrSpec{Base: "bad input \x00 at offset 3", Wraps: []hs.Wrap{{K: 'c', S: "22021"}}}}}, "TDEZ"},
+		{"error text, twice", []hs.Op{{K: "err", Err: &hs.ErrSpec{Base: "a\x00\x00b"}}}, "TEZ"},
+		{"hint", []hs.Op{row, {K: "err", Err: &hs.ErrSpec{Base: "bad input", Wraps: []hs.Wrap{{K: 'h', S: "remove the \x00 byte"}, {K: 'c', S: "22021"}}}}}, "TDEZ"},
+		{"detail", []hs.Op{{K: "err", Err: &hs.ErrSpec{Base: "bad input", Wraps: []hs.Wrap{{K: 'd', S: "\x00"}}}}}, "TEZ"},
+		{"command tag", []hs.Op{row, {K: "complete", Tag: "SELECT 1\x00junk"}}, "TDCZ"},
+	}
+	for i, k := range cases {
+		sess := &hs.Sess{Progs: map[string]*hs.Prog{
+			"q":    {Stmts: []*hs.Stmt{{ID: "s", Cols: textCols(1), Ops: k.ops}}},
+			"next": {Stmts: []*hs.Stmt{{ID: "n", Cols: textCols(1), Ops: []hs.Op{row, {K: "complete", Tag: "SELECT 1"}}}}}}}
+		cl := hs.NewClient(env.Dial(sess))
+		if err := cl.StartupOK("u"); err != nil {
+			c.Violate("startup", "plain startup failed", err.Error(), nil)
+			return
+		}
+		out, closed := cl.Step(pg.Query("q"))
+		got := frames(out)
+		c.Count("handler_strings_with_a_nul_byte", 1)
+		if closed || got != k.want {
+			c.Violate("transcript", "cycle of a statement whose "+k.name+" carries a NUL byte", fmt.Sprintf("message types %q closed=%v, want %q and an open connection", got, closed, k.want), map[string]any{"workload": "NUL in handler strings", "case": k.name})
+		} else if o, _ := cl.Step(pg.Query("next")); frames(o) != "TDCZ" {
+			c.Violate("transcript", "query after a statement whose "+k.name+" carried a NUL byte", fmt.Sprintf("message types %q want TDCZ", frames(o)), map[string]any{"workload": "NUL in handler strings", "case": k.name})
+		}
+		cl.Finish()
+		c.Eval(fmt.Sprintf("nul %d", i), true)
+	}
+}
